@@ -84,6 +84,7 @@ func (p *FinalOrderPlan) Next(ctx *ExecuteCtx) ([]Column, error) {
 		}
 	}
 	if p.pos < p.total {
+		simYield("order.emit")
 		rrow := heap.Pop(p.sorted)
 		row := rrow.(*orderColumnsRow)
 		p.pos++
@@ -132,6 +133,7 @@ func (p *FinalOrderPlan) prepare(ctx *ExecuteCtx) error {
 		}
 		heap.Push(p.sorted, row)
 		p.total++
+		simYield("order.collect")
 	}
 	return nil
 }
